@@ -48,6 +48,7 @@ class Check:
         atexit.register(shutil.rmtree, self.scratch, True)
         self.replay_dir = os.path.join(OUT, "replays", pid)
         self.info = []
+        self.rule_extra = []  # parts of the check that describe their own enumeration (sessions, proofs, stress, ...)
 
     # ---------------------------------------------------------------- bookkeeping
     def tlc_stats(self, res):
@@ -107,7 +108,7 @@ class Check:
             print(f"  {key}: {msg}")
             shown += 1
         cov = dict(self.cov)
-        cov["rule"] = rule
+        cov["rule"] = rule + ("  ||  " + "  |  ".join(self.rule_extra) if self.rule_extra else "")
         cov["exhaustive"] = bool(exhaustive)
         if extra:
             cov.update(extra)
